@@ -18,10 +18,10 @@ ASSUMPTIONS = ["empty list key [] is ambiguous (mask vs index list) and not judg
 
 NAN = float("nan")
 KINDS = {
-    "int": [10, 11, 12, 13, 14, 15],
-    "str": ["a", "b", "c", "d", "e", "f"],
-    "float": [0.5, NAN, 2.5, -0.0, 4.5, 5.5],
-    "int?": [10, None, 12, None, 14, 15],
+    "int": [10, 11, 12, 13, 14, 15, 16, 17],
+    "str": ["a", "b", "c", "d", "e", "f", "g", "h"],
+    "float": [0.5, NAN, 2.5, -0.0, 4.5, 5.5, 6.5, 7.5],
+    "int?": [10, None, 12, None, 14, 15, None, 17],
 }
 CMP = {"eq": operator.eq, "ne": operator.ne, "lt": operator.lt, "le": operator.le, "gt": operator.gt, "ge": operator.ge}
 LOGIC = {"and": operator.and_, "or": operator.or_, "xor": operator.xor}
